@@ -4,16 +4,23 @@
      same state (so the result does not depend on who edited or synced first);
    - the commutation premises for counters (full) and for array inserts on
      lists without moved elements (full for that fragment);
-   - object members: any two delivery orders of the same concurrent Sets show
-     the same value under every key (full for Sets; Removes are not covered);
+   - object members: any two delivery orders of the same batch of concurrent
+     Sets and Removes give the same link (hence the same value) under every key;
+   - text: on the character-level model of RGATreeSplit.edit (compared with the
+     real crdt.Text after every execution) an honest edit is "tombstone the known
+     characters of the range, then insert with the skip rule"; honesty survives
+     the execution of concurrent edits; two concurrent edits commute: the same
+     characters in the same order, the same ones removed.  (The tombstone TIME of
+     a character two concurrent edits both delete can depend on the order: see
+     C01_text_tombstone_time_depends_on_order.)
    - that the server's delivery discipline is a per-client exactly-once,
      in-order stream (Props/C04.v), i.e. every replica applies the same set.
-   PARTIAL: the commutation premises for object removes, array move/delete/
-   set, text and tree are not proved; for those C01 is decided by the
+   PARTIAL: the commutation premises for array move/delete/set, text styles,
+   n-ary text batches and tree are not proved; for those C01 is decided by the
    differential structure engines (model = code) plus the convergence oracle on
    real multi-client histories. *)
 From Coq Require Import List Permutation.
-From YV Require Import Crdt.RGAList Crdt.ElemRHT Proofs.SEC Proofs.RGAProofs Proofs.ERHTProofs Proofs.ERHTCommute Proofs.RGACommuteGen.
+From YV Require Import Crdt.RGAList Crdt.ElemRHT Proofs.SEC Proofs.RGAProofs Proofs.ERHTProofs Proofs.ERHTCommute Proofs.ERHTDecode Proofs.ERHTRemove Proofs.RGACommuteGen Crdt.TextRGA Proofs.TextProofs.
 
 Theorem C01_convergence_from_commutation :
   forall (S O : Type) (apply : S -> O -> option S) (hb : O -> O -> Prop) (Inv : S -> Prop),
@@ -50,7 +57,7 @@ Theorem C01_array_insert_commute : forall g p1 id1 v1 p2 id2 v2,
   exists g12 g21,
     bind (RGAList.insert_after g p1 id1 v1 id1) (fun h => RGAList.insert_after h p2 id2 v2 id2) = Some g12 /\
     bind (RGAList.insert_after g p2 id2 v2 id2) (fun h => RGAList.insert_after h p1 id1 v1 id1) = Some g21 /\
-    slots g12 = slots g21 /\ visible g12 = visible g21 /\ plain_slots g12.
+    slots g12 = slots g21 /\ RGAList.visible g12 = RGAList.visible g21 /\ plain_slots g12.
 Proof. exact rga_insert_commute. Qed.
 Print Assumptions C01_array_insert_commute.
 
@@ -67,3 +74,42 @@ Theorem C01_object_sets_converge : forall h l1 l2,
   forall k, view (fold_left apply_sop l1 h) k = view (fold_left apply_sop l2 h) k.
 Proof. exact sets_converge. Qed.
 Print Assumptions C01_object_sets_converge.
+
+(* object members: a batch of concurrent Sets and Removes, any two delivery orders *)
+Theorem C01_object_batch_converges : forall h l1 l2,
+  rht_wf h -> all_fresh_o h l1 -> batch_ok l1 -> Permutation l1 l2 ->
+  forall k, linked (fold_left apply_oop l1 h) k = linked (fold_left apply_oop l2 h) k.
+Proof. exact batch_converges. Qed.
+Print Assumptions C01_object_batch_converges.
+
+(* text: what an honest edit does *)
+Theorem C01_text_edit_is_delete_then_insert : forall pf pt vals t v l,
+  honest pf pt t v l -> edit pf pt vals t v l = hedit pf pt vals t v l.
+Proof. exact edit_is_hedit. Qed.
+Print Assumptions C01_text_edit_is_delete_then_insert.
+
+(* text: an edit stays honest while a concurrent edit is executed *)
+Theorem C01_text_honesty_preserved : forall pfa pta ta va pfb ptb valsb tb vb l lb,
+  honest pfa pta ta va l -> hedit pfb ptb valsb tb vb l = Some lb ->
+  pos_tk_ne pfa tb -> pos_tk_ne pta tb -> known va tb = false ->
+  honest pfa pta ta va lb.
+Proof. exact honest_preserved. Qed.
+Print Assumptions C01_text_honesty_preserved.
+
+(* text: two concurrent edits commute *)
+Theorem C01_text_edits_commute : forall pfa pta valsa ta va pfb ptb valsb tb vb l,
+  ta <> tb ->
+  pos_tk_ne pfa tb -> pos_tk_ne pta tb -> pos_tk_ne pfb ta -> pos_tk_ne ptb ta ->
+  known va tb = false -> known vb ta = false ->
+  honest pfa pta ta va l -> honest pfb ptb tb vb l ->
+  option_map shape (obind (edit pfa pta valsa ta va l) (edit pfb ptb valsb tb vb)) =
+  option_map shape (obind (edit pfb ptb valsb tb vb l) (edit pfa pta valsa ta va)).
+Proof. exact edit_commute. Qed.
+Print Assumptions C01_text_edits_commute.
+
+(* text: what does NOT converge — the time on the tombstone (content is not affected) *)
+Theorem C01_text_tombstone_time_depends_on_order :
+  option_map (map c_rm) (obind (ex_a ex_text) ex_b) <> option_map (map c_rm) (obind (ex_b ex_text) ex_a) /\
+  option_map shape (obind (ex_a ex_text) ex_b) = option_map shape (obind (ex_b ex_text) ex_a).
+Proof. exact del_time_order_dependent. Qed.
+Print Assumptions C01_text_tombstone_time_depends_on_order.
